@@ -41,6 +41,7 @@ var c05Events = []c05Ev{
 	{name: "advance(6s)", kind: 7, adv: 6 * time.Second},
 	{name: "advance(21s)", kind: 7, adv: 21 * time.Second},
 	{name: "disconnect(expiry0)", kind: 4, expiry: 0},
+	{name: "disconnect(expiry30)-while-session-expiry-is-0(protocol-error)", kind: 8, expiry: 30},
 }
 
 var c05Reduced = []int{3, 1, 6, 7, 8, 10, 12, 13, 14}
@@ -228,9 +229,17 @@ func c05Run(c *explore.Ctx, cfgExpiry time.Duration, alpha []int, seq []int) int
 				} else if exists && subscribed {
 					queued = append(queued, m)
 				}
-			case 3, 4, 5:
+			case 3, 4, 5, 8:
 				if !online {
 					return
+				}
+				if ev.kind == 8 {
+					// raising the expiry from 0 at DISCONNECT is a protocol error (MQTT 5 3.14.2.2.2):
+					// the packet must not change the session's fate, which ends with the connection
+					if version != refmqtt.V5 || expiry != 0 {
+						return
+					}
+					cl.Send(&refmqtt.Packet{Type: refmqtt.DISCONNECT, Props: &refmqtt.Props{SessionExpiry: harness.U32(uint32(ev.expiry))}})
 				}
 				if ev.kind == 4 {
 					if version != refmqtt.V5 || expiry == 0 {
@@ -300,7 +309,7 @@ func absI64(x int64) int64 {
 
 func runC05(c *explore.Ctx) {
 	c.Level = "model_checking"
-	c.Rule = "E2 (virtual clock): every sequence of connect variants (v3/v5, clean 0/1, expiry absent/5/MAX; a connect while connected is a take-over), subscribe, helper publish, DISCONNECT (with/without new expiry), abrupt close, TerminateSession and clock advances (4s/6s/21s) up to the depth for config session_expiry 10s and 2h, on a fresh in-process broker; reference session model (ends_at = end of last connection + effective expiry) decides Session Present, delivery of offline QoS1 messages and whether the subscription survived; a probe publish after every connect observes the subscription. E3: simultaneous CONNECTs with one client id, and TerminateSession racing the client's own disconnect, under all schedules with <=k deviations."
+	c.Rule = "E2 (virtual clock): every sequence of connect variants (v3/v5, clean 0/1, expiry absent/5/MAX; a connect while connected is a take-over), subscribe, helper publish, DISCONNECT (plain, expiry 3, expiry 0, and the invalid raise from expiry 0), abrupt close, TerminateSession and clock advances (4s/6s/21s) up to the depth for config session_expiry 10s and 2h, on a fresh in-process broker; reference session model (ends_at = end of last connection + effective expiry) decides Session Present, delivery of offline QoS1 messages and whether the subscription survived; a probe publish after every connect observes the subscription. E3: simultaneous CONNECTs with one client id, and TerminateSession racing the client's own disconnect, under all schedules with <=k deviations."
 	c.Trusted = []string{"vsched scheduler, virtual clock and memconn", "refmqtt codec"}
 	c.Assumptions = []string{"a reconnect within 1s of the computed expiry instant is accepted either way", "DISCONNECT may only lower the expiry to a value <= configured maximum (statement silent on capping)"}
 	if rc := replayCase(c); rc != nil {
